@@ -275,6 +275,20 @@ func nilOnSuccess(p *an.Prog) map[*ssa.Function]map[int]bool {
 						continue
 					}
 					v := an.RetOperand(r, i)
+					// a merged result returned behind the test of its sibling error: only the ways without an error count
+					if ph, isPhi := v.(*ssa.Phi); isPhi {
+						if edges, ok := p.SurvivingEdges(ph, b, nil); ok {
+							may := false
+							for _, k := range edges {
+								if mayNil(ph.Edges[k], 0) && p.ValState(ph.Edges[k], ph.Block().Preds[k], nil) != an.NonNil {
+									may = true
+								}
+							}
+							if !may {
+								continue
+							}
+						}
+					}
 					// a value that was nil-tested on this path is not nil here
 					if mayNil(v, 0) && p.ValState(v, b, nil) != an.NonNil {
 						if _, isC := v.(*ssa.Const); !isC {
@@ -467,6 +481,15 @@ func ruleNilOnSuccess(c *report.Ctx) {
 				}
 				if p.ValState(ex, in.Block(), nil) == an.NonNil {
 					continue
+				}
+				if cg := call.Call.StaticCallee(); cg != nil && an.AnyAtom(p.GuardsOf(in), func(a an.Atom) bool {
+					fx, ok := a.X.(*ssa.Extract)
+					if !ok || fx.Tuple != ssa.Value(call) || a.Op.String() != "ILLEGAL" || !a.Truth {
+						return false
+					}
+					return flagImpliesNonNil(cg, ex.Index, fx.Index)
+				}) {
+					continue // handed on under the call's own flag result, false on every return that leaves the pointer nil
 				}
 				// does g dereference the parameter where it is not known non-nil?
 				deref := paramDeref(p, g, g.Params[ai])
